@@ -114,6 +114,12 @@ theorem rnd_mono (n d n' d' : Nat) (hd : 0 < d) (hd' : 0 < d') (h : n * d' ≤ n
       _ ≤ 2 ^ 52 * 2 ^ kx := Nat.mul_le_mul_left _ (Nat.pow_le_pow_right (by omega) (by omega))
       _ ≤ roundDiv n' d' ky * 2 ^ kx := Nat.mul_le_mul_right _ hry
 
+/-- **Rounding is a function of the value**, not of the fraction that represents it: equal
+    fractions round to binary64 values that are equal (as values) -/
+theorem rnd_value_congr (n d n' d' : Nat) (hd : 0 < d) (hd' : 0 < d') (h : n * d' = n' * d) :
+    F64.le (rnd n d) (rnd n' d') ∧ F64.le (rnd n' d') (rnd n d) :=
+  ⟨rnd_mono n d n' d' hd hd' (Nat.le_of_eq h), rnd_mono n' d' n d hd' hd (Nat.le_of_eq h.symm)⟩
+
 /-- **The model rounds to binary64**: inside the domain (a positive value below 2^53, denominator
     below 2^1000) the result has exactly 53 significant bits (`2^52 ≤ mant ≤ 2^53`, the upper end
     being the next power of two), and by `rnd_err` it is within half a unit in the last place. -/
@@ -1148,6 +1154,61 @@ theorem dateNodeSimilarityF_self (l : Sim.DateR) (m : Dbl) :
     F64.le (dateNodeSimilarityF (some l) (some l) m) one := by
   unfold dateNodeSimilarityF
   exact dateSimilarity_self _ m
+
+/-- float64 addition is monotone in both operands -/
+theorem add_mono (a a' b b' : Dbl) (ha : F64.le a a') (hb : F64.le b b') :
+    F64.le (add a b) (add a' b') := by
+  unfold add
+  apply rnd_mono _ _ _ _ (by positivity) (by positivity)
+  unfold F64.le at ha hb
+  have h1 : a.mant * 2 ^ b.frac * 2 ^ (a'.frac + b'.frac) ≤ a'.mant * 2 ^ b'.frac * 2 ^ (a.frac + b.frac) := by
+    calc a.mant * 2 ^ b.frac * 2 ^ (a'.frac + b'.frac)
+        = (a.mant * 2 ^ a'.frac) * (2 ^ b.frac * 2 ^ b'.frac) := by rw [Nat.pow_add]; ring
+      _ ≤ (a'.mant * 2 ^ a.frac) * (2 ^ b.frac * 2 ^ b'.frac) := Nat.mul_le_mul_right _ ha
+      _ = a'.mant * 2 ^ b'.frac * 2 ^ (a.frac + b.frac) := by rw [Nat.pow_add]; ring
+  have h2 : b.mant * 2 ^ a.frac * 2 ^ (a'.frac + b'.frac) ≤ b'.mant * 2 ^ a'.frac * 2 ^ (a.frac + b.frac) := by
+    calc b.mant * 2 ^ a.frac * 2 ^ (a'.frac + b'.frac)
+        = (b.mant * 2 ^ b'.frac) * (2 ^ a.frac * 2 ^ a'.frac) := by rw [Nat.pow_add]; ring
+      _ ≤ (b'.mant * 2 ^ b.frac) * (2 ^ a.frac * 2 ^ a'.frac) := Nat.mul_le_mul_right _ hb
+      _ = b'.mant * 2 ^ a'.frac * 2 ^ (a.frac + b.frac) := by rw [Nat.pow_add]; ring
+  calc (a.mant * 2 ^ b.frac + b.mant * 2 ^ a.frac) * 2 ^ (a'.frac + b'.frac)
+      = a.mant * 2 ^ b.frac * 2 ^ (a'.frac + b'.frac) + b.mant * 2 ^ a.frac * 2 ^ (a'.frac + b'.frac) := by ring
+    _ ≤ a'.mant * 2 ^ b'.frac * 2 ^ (a.frac + b.frac) + b'.mant * 2 ^ a'.frac * 2 ^ (a.frac + b.frac) :=
+        Nat.add_le_add h1 h2
+    _ = (a'.mant * 2 ^ b'.frac + b'.mant * 2 ^ a'.frac) * 2 ^ (a.frac + b.frac) := by ring
+
+/-- float64 multiplication (of non-negative values) is monotone in both operands -/
+theorem mul_mono (a a' b b' : Dbl) (ha : F64.le a a') (hb : F64.le b b') :
+    F64.le (mul a b) (mul a' b') := by
+  unfold mul
+  apply rnd_mono _ _ _ _ (by positivity) (by positivity)
+  unfold F64.le at ha hb
+  calc a.mant * b.mant * 2 ^ (a'.frac + b'.frac)
+      = (a.mant * 2 ^ a'.frac) * (b.mant * 2 ^ b'.frac) := by rw [Nat.pow_add]; ring
+    _ ≤ (a'.mant * 2 ^ a.frac) * (b'.mant * 2 ^ b.frac) := Nat.mul_le_mul ha hb
+    _ = a'.mant * b'.mant * 2 ^ (a.frac + b.frac) := by rw [Nat.pow_add]; ring
+
+/-- the weighted sum is monotone in the four components: a better component never lowers the
+    float64 weighted similarity -/
+theorem weightedF_mono (i i' p p' s s' c c' wI wP wS wC : Dbl)
+    (hi : F64.le i i') (hp : F64.le p p') (hs : F64.le s s') (hc : F64.le c c') :
+    F64.le (weightedF i p s c wI wP wS wC) (weightedF i' p' s' c' wI wP wS wC) := by
+  have hw : ∀ w : Dbl, F64.le w w := fun w => by unfold F64.le; exact Nat.le_refl _
+  have hsum : F64.le (weightedSumF i p s c wI wP wS wC) (weightedSumF i' p' s' c' wI wP wS wC) := by
+    unfold weightedSumF
+    exact add_mono _ _ _ _ (add_mono _ _ _ _ (add_mono _ _ _ _ (mul_mono _ _ _ _ hi (hw _))
+      (mul_mono _ _ _ _ hp (hw _))) (mul_mono _ _ _ _ hs (hw _))) (mul_mono _ _ _ _ hc (hw _))
+  unfold weightedF
+  by_cases h' : F64.lt one (weightedSumF i' p' s' c' wI wP wS wC)
+  · rw [if_pos h']
+    split
+    · unfold F64.le; exact Nat.le_refl _
+    · rename_i h; rw [le_iff_toQ]; rw [lt_iff_toQ] at h; exact not_lt.mp h
+  · rw [if_neg h']
+    have : ¬ F64.lt one (weightedSumF i p s c wI wP wS wC) := by
+      rw [lt_iff_toQ] at h' ⊢; rw [le_iff_toQ] at hsum
+      exact not_lt.mpr (le_trans hsum (not_lt.mp h'))
+    rw [if_neg this]; exact hsum
 
 /-! ### The float64 `Minimum()` that selects the estimated dates -/
 
